@@ -22,14 +22,22 @@ CHECKS = {
         ref='4 (C01)',
         note='Warm-up injection is covered by the correspondence/oracle only.'),
     'C02': dict(
-        text='Engine model of the per-minute and chunked matching loops (GENERATED split_candle / candle_includes_price / '
-             'gap normalisation inside) tied to the real engine by whole-session trace correspondence on volatile, gapping '
-             'candles with tight order ladders; oracle on real traces: fills inside the extended range of their minute, never '
-             'before submission / after cancel, no order left unfilled through a minute (chunk) that contained its price, MARKET '
-             'orders filled at submission.',
-        technique='Lean 4 engine model + whole-session correspondence; fill/missed-fill oracle on real traces',
+        text='Proof over the matching part of the engine model (hand model of _get_executing_orders, _sort_execution_orders and '
+             'the while-loop of both simulators, with the GENERATED split_candle / candle_includes_price inside), for EVERY user '
+             'strategy: when the matching loop of a minute returns, no active order of the symbol has its price inside what '
+             'remains of the candle (C02.minute_no_resting_hit; per chunk minute in the fast simulator: '
+             'C02.chunk_minute_no_resting_hit); the order the sort puts first is the first one the O-L-H-C / O-H-L-C path reaches: '
+             'after the split at its price every other candidate still lies in the remaining part, so none is jumped over '
+             '(C02.sorted_head_first_on_path, incl. flat-bodied candles and prices on open/high/low/close); an order that is not '
+             'active never fills (C02.inactive_order_never_fills); no MARKET order stays queued after the strategy step '
+             '(C02.market_queue_drained). Tie: whole-session trace correspondence with the real engine on volatile, gapping, '
+             'doji candles with tight ladders and straddles; oracle on real traces: fills inside the extended range of their '
+             'minute, never before submission / after cancel, no order left unfilled through a unit that contained its price.',
+        technique='Lean 4 theorems over the matching loop for every strategy (induction on the loop, sortedness of the insertion sort, path arithmetic) + whole-session correspondence; fill/missed-fill oracle on real traces',
         ref='4 (C02)',
-        note='Matching theorems (no missed fill, first minute) are being added; see evidence.theorems.'),
+        note='The composition "an order resting since before the minute is never left with its price in the minute\'s range" needs '
+             'the frame fact that hooks never change the price of an existing order; that fact is covered by the correspondence and '
+             'the oracle, not by a theorem (evidence.unproved).'),
     'C03': dict(
         text='Proof over the accounts model (mirrors FuturesExchange/Order/Position branch by branch, with the GENERATED '
              'estimate_PNL / estimate_average_price inside; tied by step-by-step correspondence with the real objects): one '
@@ -62,15 +70,21 @@ CHECKS = {
         technique='Lean 4 theorems over the accounts model (state equality for no-ops, status order, registry filter); correspondence; traced engine sessions',
         ref='4 (C05)'),
     'C06': dict(
-        text='Engine + accounts model (position hooks chosen from |previous qty| vs |qty|, trade records built from executed '
-             'orders) tied to the real engine by whole-session trace correspondence (hooks, fills, closed-trade count); oracle '
-             'on real traces: well-formed cycles, one matching hook per fill, one closed trade per cycle with the side, '
-             'quantity, weighted entry/exit, times and orders of its fills, futures net PnL = wallet change. The two '
-             'situations in which the unchanged code violates this (oversize reduce-only fill, flip) are known findings '
-             'C06-F1/F2 with witnesses; every other deviation is reported.',
-        technique='Lean 4 engine/accounts model + whole-session correspondence; trade-log oracle on real traces; classified known findings',
+        text='Proof over the accounts model (futures, one symbol; Order.execute with the GENERATED estimate_PNL / '
+             'estimate_average_price inside, trade records as in CompletedTrades, ClosedTrade.qty/entry_price/exit_price/pnl '
+             'modelled in Jesse/TradeLog.lean): one legal fill keeps the world well-formed (position = recorded buys - sells; '
+             'flat <=> empty running trade; open <=> running trade of the position\'s side), appends the order and its row to '
+             'the running trade, produces exactly one closed trade - the running one - exactly when the position returns to '
+             'zero, and leaves wallet - sum(net PnL of closed trades) - open-cycle term invariant (C06.fill_step); by induction '
+             'for every legal history (C06.history_ledger); hence whenever the position is flat the wallet has moved by exactly '
+             'the net PnL of the closed trades (C06.net_pnl_equals_wallet_change), and a closed trade\'s PnL is sells - buys - '
+             'fee*(both notionals) of its fills (C06.closed_trade_pnl). Hook reporting (one matching hook per fill) is decided '
+             'on the engine model by whole-session correspondence and by the trade-log oracle on real traces. Oversize '
+             'reduce-only fills and flips are excluded by the hypotheses: there the unchanged code violates the property '
+             '(known findings C06-F1/F2).',
+        technique='Lean 4 invariant + ledger identity by induction over fill histories (Mathlib field_simp/ring in lemmas); step-by-step accounts correspondence incl. ClosedTrade.pnl; whole-session correspondence; trade-log oracle',
         ref='4 (C06)',
-        note='Theorems: the per-fill accounting of C03 (refinement to the margin account) and C05 (one trade per executed order); the cycle/PnL identity theorems are not yet stated.'),
+        note='One traded symbol per world in the theorems (several symbols sharing a wallet: correspondence + oracle). Open/close times of trades are checked by the oracle only.'),
     'C07': dict(
         text='Proof: the GENERATED generate_candle_from_one_minutes is the aggregation (window start, first open, last close, '
              'max high, min low, summed volume) for every non-empty list; the GENERATED gap normalisation only moves the open '
